@@ -21,7 +21,7 @@ Vector nodes (V):
   ["vec",name] ["slice",V,a,b,c] ["row",M,i] ["col",M,j] ["diag",M] ["diagf",M]
   ["arr",[..]] ["list",[..]] ["vparv",name]
   ["vbin",op,V,other] ["vrbin",op,other,V] ["vneg",V] ["vpow",V,k] ["vfn",f,V]
-  ["mv",Q,V] ["Mv",M,V] ["velems",[S..]]
+  ["mv",Q,V] ["Mv",M,V] ["velems",[S..]] ["vM",V,Q,form]  (vector @ constant 2-D array)
 Matrix nodes (M):
   ["mat",name] ["T",M] ["MT",M] ["sub",M,r0,r1,c0,c1] ["dmat",V]
   ["arr2",[[..]]] ["list2",[[..]]]
@@ -39,7 +39,7 @@ SCALAR_KINDS = {
 }
 VECTOR_KINDS = {
     "vec", "slice", "row", "col", "rows", "cols", "diag", "diagf", "arr", "list", "tuple", "vparv", "vbin",
-    "vrbin", "vneg", "vpow", "vfn", "mv", "Mv", "velems",
+    "vrbin", "vneg", "vpow", "vfn", "mv", "Mv", "velems", "vM",
 }
 MATRIX_KINDS = {"mat", "T", "MT", "sub", "dmat", "arr2", "list2", "mbin", "mrbin", "mneg"}
 
@@ -203,6 +203,10 @@ def render(n) -> str:
         return f"(np.array({n[1]}) @ {render(n[2])})"
     if k == "Mv":
         return f"({render(n[1])} @ {render(n[2])})"
+    if k == "vM":
+        if len(n) > 3 and n[3] == "dot":
+            return f"{render(n[1])}.dot(np.array({n[2]}))"
+        return f"({render(n[1])} @ {'np.array(' + str(n[2]) + ')' if not (len(n) > 3 and n[3] == 'list') else n[2]})"
     if k == "velems":
         return "[" + ", ".join(render(e) for e in n[1]) + "]"
     if k in ("T", "MT"):
